@@ -97,6 +97,12 @@ EXTRA_ATOMS += [A("huge1m", "char {p}hm[1048560];", [("{p}hm", "arr")]), A("huge
                 A("huge16m", "int {p}ho[4194305];", [("{p}ho", "arr")]),
                 # member offsets beyond 2^31 and 2^32 BITS (256 MiB and 512 MiB of bytes in front of a member)
                 A("huge256m", "char {p}hp[268435457];", [("{p}hp", "arr")]), A("huge512m", "char {p}hq[536870913];", [("{p}hq", "arr")])]
+# anonymous (declarator-less) members that are over-aligned: libclang reports no field offset for them, so the layout tracker
+# places them itself
+EXTRA_ATOMS += [A("anonal16", "struct {{ int {p}lo; int {p}hi; }} __attribute__((aligned(16)));", [("{p}lo", "sint"), ("{p}hi", "sint")]),
+                A("anonuld", "union {{ long double {p}uld; char {p}raw[16]; }};", [("{p}raw", "arr")]),
+                A("anonal32", "struct {{ char {p}c32; }} __attribute__((aligned(32)));", [("{p}c32", "sint")])]
+ANON_OVERALIGNED_ATOMS = ["anonal16", "anonuld", "anonal32"]
 STD_NAME_ATOMS = []
 OVERALIGNED_ARRAY_ATOMS = ["oal1d", "oal2d", "oalrow", "i128x2d", "ldx2d"]
 FNPTR_ABI_ATOMS = ["fpvec", "fpmsv", "fppm", "fpms"]
